@@ -188,6 +188,15 @@ class PEval:
             if k["s"].startswith("const "):
                 s = k["s"][6:]
                 return ("sym", "const:" + s)
+            if re.match(r"^bitstream_io::(Signed)?BitCount<\d+>$", k.get("ty") or ""):
+                # a named bit-count constant of the crate: its evaluated bytes are in the facts (bits, and for the signed
+                # flavour bits - 1, as little-endian u32s in either order)
+                st = self.F.statics.get(k["s"])
+                raw = st.get("bytes") if st else None
+                if raw and len(raw) in (8, 16):
+                    ws = [int.from_bytes(bytes.fromhex(raw[i:i + 8]), "little") for i in range(0, len(raw), 8)]
+                    if len(ws) == 1 or (len(ws) == 2 and abs(ws[0] - ws[1]) == 1):
+                        return ("bitcount", max(ws))
             return UNK
         p = op_place(o)
         if p is None:
@@ -251,6 +260,10 @@ class PEval:
             r = self.on_call(self, env, t, name, args)
             if r is not None:
                 return r
+        if path in ("std::convert::Into::into", "std::convert::From::from") and args and isinstance(args[0], tuple) and args[0][0] == "bitcount":
+            ga = [a for a in t["f"]["args"] if not a.startswith("'")]
+            if any(a in ("u32", "u64", "usize", "u16", "u8") for a in ga):
+                return args[0][1]
         # conversions implemented by the crate itself: propagate through the (loop-free) impl body
         if path in ("std::convert::Into::into", "std::convert::From::from") and self.depth < 3:
             ga = [a for a in t["f"]["args"] if not a.startswith("'")]
@@ -310,6 +323,16 @@ class PEval:
                     return ("adt", "std::result::Result", "Ok", 0, [v[4][0] if v[4] else UNK])
                 return ("adt", "std::result::Result", "Err", 1, [args[1]])
             return UNK
+        if re.search(r"::Option::<T>::map$", name) and len(args) > 1 and isinstance(args[1], tuple) and args[1][0] == "fn":
+            v = args[0]
+            ctor = args[1][1]
+            adt, _, var = ctor.rpartition("::")
+            ad = self.F.adts.get(adt)
+            vi = [i for i, x in enumerate(ad["variants"]) if x["name"] == var] if ad else []
+            if isinstance(v, tuple) and v[0] == "adt" and vi:
+                if v[2] == "Some":
+                    return ("adt", "std::option::Option", "Some", 1, [("adt", adt, var, vi[0], [v[4][0] if v[4] else UNK])])
+                return v
         if re.search(r"::Option::<T>::ok_or_else$", name):
             v = args[0]
             if isinstance(v, tuple) and v[0] == "adt":
